@@ -116,3 +116,24 @@ def exhaustion_cases(seed):
     # allocation well inside the heap must succeed
     add("heap:fits", ["ok"], "", 'let a = Array[Int64]::fill(100000, 3); println("${a.size()}");', flags="--max-heap-size=16M")
     return cases
+
+
+def bigframe_cases(thorough=False):
+    """recursion with frames of ~260 KiB (huge), ~520 KiB (huger), ~1 MiB (giant) and ~4 MiB (mega): nested struct values P_k of 16 * 2^k bytes held in
+    locals. Only for the baseline code generator (the optimizing compiler needs minutes for such functions)."""
+    cases = []
+
+    def prog(K):
+        d = "    struct P[T] { a: T, b: T }\n    type P0 = P[Int64];\n" + "".join(f"    type P{k} = P[P{k - 1}];\n" for k in range(1, K + 1))
+        d += "    fn rec(x: Int64): Int64 {\n        let p0 = P[Int64](a = x, b = x + 1);\n"
+        d += "".join(f"        let p{k} = P[P{k - 1}](a = p{k - 1}, b = p{k - 1});\n" for k in range(1, K + 1))
+        d += f"        let r = rec(x + 1);\n        r + p{K}{'.b' * K}.a\n    }}\n"
+        return d
+    shapes = [("huge", 13, True), ("huger", 14, True), ("giant", 15, True)] + ([("mega", 17, True)] if thorough else [])
+    for name, K, _ in shapes:
+        for where in ("main", "spawned"):
+            if name == "giant" and where == "main" and not thorough:
+                continue
+            body = 'println("${rec(1)}");' if where == "main" else 'let t = std::thread::spawn(|| { println("${rec(1)}"); }); t.join(); println("joined");'
+            cases.append({"id": f"b{len(cases)}", "kind": f"recursion:{name}:{where}", "expect": ["trap107"], "decls": prog(K), "body": body, "flags": ""})
+    return cases
